@@ -58,6 +58,44 @@ Theorem compact_decrypted_means_authenticated :
     finish zip msg = EOk payload.
 Proof. exact (compact_accept_sound_l json_loads alg_registered enc_registered zip_registered prepare_key unwrap decrypt decompress). Qed.
 
+(* the converse, so acceptance is characterised exactly: five dot-free segments that pass every stage are accepted
+   with the header of the first segment and the finished plaintext -- nothing else is consulted *)
+Theorem compact_authenticated_means_decrypted :
+  forall allow ps eks ivs cts tags ek iv ct tag alg enc zip k cek msg rawkey h payload,
+  nodot ps -> nodot eks -> nodot ivs -> nodot cts -> nodot tags ->
+  extract_hdr ps = EOk h ->
+  urlsafe_b64decode eks = Some ek -> urlsafe_b64decode ivs = Some iv -> urlsafe_b64decode cts = Some ct ->
+  urlsafe_b64decode tags = Some tag ->
+  header_alg allow h = EOk alg -> header_enc allow h = EOk enc -> header_zip allow h = EOk zip ->
+  prepare_key alg (effective_key h rawkey) = Some k ->
+  unwrap alg enc ek h k = Some cek ->
+  decrypt enc cek iv ps ct tag = Some msg ->
+  finish zip msg = EOk payload ->
+  deserialize_compact allow (ps ++ "." ++ eks ++ "." ++ ivs ++ "." ++ cts ++ "." ++ tags)%string rawkey = EOk (h, payload).
+Proof. exact (compact_accept_complete_l json_loads alg_registered enc_registered zip_registered prepare_key unwrap decrypt decompress). Qed.
+
+(* anything but exactly five segments is a DecodeError, whatever the key, the allow-list and the cipher *)
+Theorem wrong_segment_count_is_refused :
+  forall allow s rawkey,
+  List.length (split_dots s) <> 5%nat -> deserialize_compact allow s rawkey = EErr (EDecode "segments").
+Proof. exact (compact_segment_count_l json_loads alg_registered enc_registered zip_registered prepare_key unwrap decrypt decompress). Qed.
+
+(* an algorithm outside the caller's allow-list never decrypts anything, whatever the key and the cipher say *)
+Theorem disallowed_algorithm_never_decrypts :
+  forall l s rawkey h payload,
+  deserialize_compact (Some l) s rawkey = EOk (h, payload) ->
+  exists a e, dict_get "alg" h = Some (PStr a) /\ allowed (Some l) a = true /\
+              dict_get "enc" h = Some (PStr e) /\ allowed (Some l) e = true.
+Proof.
+  intros l s rawkey h payload H.
+  destruct (compact_accept_sound_l json_loads alg_registered enc_registered zip_registered prepare_key unwrap decrypt decompress
+              _ _ _ _ _ H)
+    as (ps & eks & ivs & cts & tags & ek & iv & ct & tag & alg & enc & zip & k & cek & msg & S & N1 & N2 & N3 & N4 & N5 & EH & D1 & D2 & D3 & D4 & HA & HE & HZ & PK & UW & DE & FI).
+  destruct (header_alg_sound alg_registered _ _ _ HA) as [A1 [A2 A3]].
+  destruct (header_enc_sound enc_registered _ _ _ HE) as [E1 [E2 E3]].
+  exists alg, enc. repeat split; assumption.
+Qed.
+
 Theorem algorithms_are_the_headers_and_allowed :
   forall allow h a e,
   header_alg allow h = EOk a -> header_enc allow h = EOk e ->
@@ -116,6 +154,9 @@ End C03.
 
 Print Assumptions compact_round_trip.
 Print Assumptions compact_decrypted_means_authenticated.
+Print Assumptions compact_authenticated_means_decrypted.
+Print Assumptions wrong_segment_count_is_refused.
+Print Assumptions disallowed_algorithm_never_decrypts.
 Print Assumptions algorithms_are_the_headers_and_allowed.
 Print Assumptions json_decrypted_means_authenticated.
 Print Assumptions altered_serialization_never_decrypts_to_something_else.
